@@ -444,6 +444,9 @@ for _id, _prop, _rule, _desc, _eb in [
     ("c12-wrong-member-pointer", "C12", "R12.1", "buffer_item(&CdnsBlock::add_*) (C12g/1) flushes when the block is NOT full", False),
     ("c02-worker-counts-before-write", "C02", "R02.3", "block writer moved into a private worker with a result struct (C12i/3) that counts the block before writing it", False),
     ("c12-worker-clear-before-write", "C12", "R12.4", "write_block() over the private worker (C12i/3) that clears the block before writing it", False),
+    ("c06-result-wrong-count", "C06", "R06.1", "write_int returning a {stored, bytes} result (C02i/3) that reports 2 bytes for a 3-byte head", False),
+    ("c06-result-not-committed", "C06", "R06.6", "commit_head over write_int's result (C02i/3) that does not advance the buffer", True),
+    ("c10-result-count-dropped", "C10", "R10.2", "commit_head over write_int's result (C02i/3) that returns the flag instead of the byte count", False),
     ("c14-result-unchecked", "C14", "R14.3", "compressor step reporting through a result struct (C14i/2) whose failure flag write() ignores", False),
     ("c14-result-ok-on-error", "C14", "R14.3", "compressor step reporting through a result struct (C14i/2) that says ok for a refused code", False),
     ("c06-flush-guard-inverted", "C06", "R06.4", "flush_buffer writes only when nothing is staged", False),
